@@ -296,6 +296,25 @@ func classifyDoc(b []byte, numOf func(string) int) SDoc {
 	return doc
 }
 
+// intern replaces a long string VALUE (uuids, time stamps: opaque to the model) by a short token, the same token for
+// the same string within one history, so that equalities between strings are preserved; member names are never
+// interned. It only keeps the Coq terms small (coqc needs ~1 KB of memory per character of a string literal).
+var internTab = map[string]int{}
+
+func intern(v string) string {
+	if len(v) <= 16 {
+		return v
+	}
+
+	n, ok := internTab[v]
+	if !ok {
+		n = len(internTab) + 1
+		internTab[v] = n
+	}
+
+	return fmt.Sprintf("~%d", n)
+}
+
 // coqTree reads JSON text generically (member order kept, nothing inbox-specific) and prints it as a Json.v term.
 func coqTree(b []byte) (string, bool) {
 	dec := json.NewDecoder(bytes.NewReader(b))
@@ -378,7 +397,7 @@ func coqValue(dec *json.Decoder) (string, error) {
 
 		return "(JNum " + hx.CoqZ(n) + ")", nil
 	case string:
-		return "(JStr " + hx.CoqString(v) + ")", nil
+		return "(JStr " + hx.CoqString(intern(v)) + ")", nil
 	}
 
 	return "", errors.New("unexpected token")
@@ -696,6 +715,7 @@ func hasInt(a []int, x int) bool {
 
 func runFull(kind string, c FCase, tr *hx.Trace) {
 	w := newFWorld(c.Empty)
+	internTab = map[string]int{}
 
 	for _, o := range c.Ops {
 		if o.Kind == "fwd" && !w.useMed {
@@ -1013,9 +1033,9 @@ func enumerateF(alpha []FOp, maxLen int, f func([]FOp)) {
 }
 
 func fullGenerators(rng *hx.Rng, tier string, tr *hx.Trace) {
-	nRand, nCodec, nBig, nMed, nConc3 := 900, 150, 4, 150, 120
+	nRand, nCodec, nBig, nMed, nConc3 := 900, 150, 3, 150, 120
 	if tier == "thorough" {
-		nRand, nCodec, nBig, nMed, nConc3 = 40000, 2500, 60, 4000, 100000
+		nRand, nCodec, nBig, nMed, nConc3 = 40000, 2500, 10, 4000, 100000
 	}
 
 	// all histories of length <= 2 over an alphabet with several faults per operation, all handlers, restart
@@ -1075,7 +1095,7 @@ func fullGenerators(rng *hx.Rng, tier string, tr *hx.Trace) {
 	for i := 0; i < nBig; i++ {
 		r := rng.Fork(uint64(14_000_000 + i))
 		ops := []FOp{}
-		held := 120 + r.Intn(250)
+		held := 100 + r.Intn(100) // the record carries the stored list after every op: quadratic in this number
 
 		for j := 0; j < held; j++ {
 			o := FOp{Kind: "add", DID: 1 + j%2}
